@@ -614,7 +614,7 @@ def _malformed_cases(ctx, idx):
     s = _gen_group(ctx, 'bad', idx, 1, dim)
     kind = ['closed-polygon', 'point-count', 'non-finite', 'meas-more', 'meas-fewer', 'meas-single', 'meas-nan-padded',
             'meas-nan-short', 'mixed-dims', 'wrong-columns', 'one-dimensional', 'number', 'empty', 'unknown-type',
-            'sop-numbering', 'meas-wrong-type'][idx % 16]
+            'sop-numbering', 'meas-wrong-type', 'meas-parsed-single', 'meas-parsed-count'][idx % 18]
     from highdicom.ann import Measurements
     n = len(s['counts'])
 
@@ -715,6 +715,25 @@ def _malformed_cases(ctx, idx):
         order = r.choice([(2, 1), (1, 3), (2, 3), (1, 1)])
         return dict(d, numbers=list(order)), lambda: _build_sop([_build_group(s, number=order[0]), _build_group(s2, number=order[1])], '2D' if dim == 2 else '3D'), \
             ('sopNumbers', {'numbers': list(order)})
+    if kind in ('meas-parsed-single', 'meas-parsed-count'):
+        # a Measurements item that was parsed from a dataset (it no longer knows how many values it was built from),
+        # dense (no NaN), reused for a group with another number of annotations
+        from copy import deepcopy
+        from pydicom.dataset import Dataset
+        gd, n2 = s['coords'], n
+        if n2 == 1:
+            n2 = 3
+            cnt = [MIN_PTS[s['gtype']]] * n2
+            gd, _ = _gen_coords(r, ctx.np_rng('bad', idx), s['gtype'], cnt, dim, 'vary' if dim == 3 else '-', 'f4')
+        k = 1 if kind == 'meas-parsed-single' else r.choice([x for x in (2, n2 - 1, n2 + 1, n2 + 2, 2 * n2) if x not in (n2, 1) and x > 0])
+        vals = np.arange(k) + 1.5
+        plain = Dataset()
+        for el in meas(vals)[0]:
+            plain.add(deepcopy(el))
+        parsed = Measurements.from_dataset(plain, copy=False)
+        margs = _model_args(s['gtype'], gd)
+        margs['meas_parsed'] = _model_args(s['gtype'], gd, [vals])['meas']
+        return dict(d, n=n2, values=k, parsed=True), lambda: _build_group(s, graphic_data=gd, measurements=[parsed]), margs
     if kind == 'meas-wrong-type':
         from pydicom.dataset import Dataset
         return d, lambda: _build_group(s, measurements=[Dataset()]), None
